@@ -932,23 +932,14 @@ func (f *Field) SetBit(rowID, colID uint64, t *time.Time) (changed bool, err err
 
 // ClearBit clears a bit within the field.
 func (f *Field) ClearBit(rowID, colID uint64) (changed bool, err error) {
-	viewName := viewStandard
-
-	// Retrieve view. Exit if it doesn't exist.
-	view, present := f.viewMap[viewName]
-	if !present {
-		return changed, errors.Wrap(err, "clearing missing view")
-
-	}
-
-	// Clear non-time bit.
-	if v, err := view.clearBit(rowID, colID); err != nil {
-		return changed, errors.Wrap(err, "clearing on view")
-	} else if v {
-		changed = v
-	}
-	if len(f.viewMap) == 1 { // assuming no time views
-		return changed, nil
+	// Clear non-time bit. A time field created with noStandardView has no
+	// standard view; its time views still have to be cleared.
+	if view, present := f.viewMap[viewStandard]; present {
+		if v, err := view.clearBit(rowID, colID); err != nil {
+			return changed, errors.Wrap(err, "clearing on view")
+		} else if v {
+			changed = true
+		}
 	}
 	skipAbove := maxInt
 	for _, view := range f.allTimeViewsSortedByQuantum() {
@@ -957,13 +948,15 @@ func (f *Field) ClearBit(rowID, colID uint64) (changed bool, err error) {
 		// view to the next year's view drops three levels at once.)
 		level := (len(view.name)-len(viewStandard)-1-4)/2 + 1
 		if level < skipAbove {
-			if changed, err = view.clearBit(rowID, colID); err != nil {
+			cleared, err := view.clearBit(rowID, colID)
+			if err != nil {
 				return changed, errors.Wrapf(err, "clearing on view %s", view.name)
 			}
-			if !changed {
+			if !cleared {
 				skipAbove = level + 1
 			} else {
 				skipAbove = maxInt
+				changed = true
 			}
 		}
 	}
@@ -994,6 +987,9 @@ func (f *Field) allTimeViewsSortedByQuantum() (me []*view) {
 		}
 	}
 	me = me[:i]
+	if len(me) == 0 {
+		return me
+	}
 	year := strings.Index(me[0].name, "_") + 4
 	month := year + 2
 	day := month + 2
